@@ -148,85 +148,45 @@ def scn_rest(p, res):
 
 
 # ----------------------------------------------------------------- SCN-CORE
+SCN_CORE_MSG = {
+    'eof': 'eof() must be pos >= end', 'peek': "look-ahead must return the empty sentinel at and beyond the bound", 'next': 'next() must not step beyond the end',
+    'eat': 'eat() steps exactly when the peeked character matches', 'eat_while': 'eat_while() must test the bound before every step',
+    'back_up': 'back_up(n) moves the cursor back by n', 'current': 'current() is string[start:pos]', 'substring': 'substring(start, end) is string[start:end], end defaulting to the scanner end',
+    'error': 'the exception carries the unmodified 0-based position (only the message is 1-based) and the source', '__init__': 'construction of the cursor',
+    'readable': 'readable() is pos < size', 'consume': 'consume() steps only over an existing element that passes the test, after the bound test',
+    'consume_while': 'consume_while() repeats consume() and reports whether the cursor moved', 'slice': 'slice() defaults to start..pos',
+    'sol': 'sol() is pos == start', 'previous': 'previous() must not step before the left bound', 'prev': "prev() returns '' at position 0", 'cur': "cur() returns '' at the end",
+}
+
+
 @rule('SCN-CORE', 'D', 'the cursor classes themselves: every step is behind the class bound test, look-ahead returns the empty sentinel out of range')
 def scn_core(p, res):
-    def body_src(q):
-        f = p.func(q)
-        return f, [src_of(s) for s in f.node.body if not (isinstance(s, ast.Expr) and isinstance(s.value, ast.Constant))]
-
-    def expect(q, want, msg):
-        f, body = body_src(q)
-        if body == want:
-            res.ok('%s: %s' % (q, ' ; '.join(w.replace('\n', ' ') for w in want)))
+    """Each method of the cursor classes is summarised symbolically (all paths; locals substituted; effects in order) and the
+    summary is compared, case by case, with the reviewed decision table in scn_spec.py.  A refactoring that keeps the
+    decision table (other locals, if/else vs conditional expression, guard clauses, a differently spelled comparison or
+    string) is not reported; a method whose table differs in a recognised way is; anything else is reported undecided."""
+    from .. import dtable
+    from .scn_spec import SPEC
+    for fq, rows in SPEC.items():
+        f = p.func(fq)
+        status, det = dtable.check(p, f, rows)
+        name = fq.rsplit('.', 1)[1]
+        if status == 'ok':
+            res.ok('%s: %d case(s) agree with the reviewed table' % (fq, det))
+        elif status == 'unknown':
+            res.undecided('%s: %s' % (fq, det), SCN_CORE_MSG.get(name, 'cursor method'))
         else:
-            res.bad(F('SCN-CORE', f, f.node, ' ; '.join(b.replace('\n', ' ') for b in body), msg))
-    S = 'scanner.Scanner.'
-    expect(S + 'eof', ['return self.pos >= self.end'], 'eof() must be pos >= end')
-    expect(S + 'peek', ["return self.string[self.pos] if self.pos < self.end else ''"], "peek() must return '' at and beyond the end")
-    expect(S + 'next', ['if self.pos < self.end:\n    ch = self.string[self.pos]\n    self.pos += 1\n    return ch'], 'next() must not step beyond the end')
-    expect(S + 'eat', ['ch = self.peek()', 'ok = match(ch) if callable(match) else match == ch', 'if ok:\n    self.pos += 1', 'return ok'],
-           'eat() steps exactly when the peeked character matches')
-    expect(S + 'eat_while', ['start = self.pos', 'while self.pos < self.end and self.eat(match):\n    pass', 'return self.pos != start'],
-           'eat_while() must test the bound before every step')
-    expect(S + 'back_up', ['self.pos -= n'], 'back_up')
-    expect(S + 'current', ['return self.substring(self.start, self.pos)'], 'current() is string[start:pos]')
-    expect(S + 'substring', ['if end is None:\n    end = self.end', 'return self.string[start:end]'], 'substring')
-    f, body = body_src(S + 'error')
-    # error position: the ScannerException carries the 0-based cursor position unchanged
-    calls = [c for c in f.body_nodes() if isinstance(c, ast.Call) and src_of(c.func) == 'ScannerException']
-    if len(calls) == 1 and len(calls[0].args) == 3 and src_of(calls[0].args[1]) == 'pos' and src_of(calls[0].args[2]) == 'self.string' \
-            and 'if pos is None:\n    pos = self.pos' in body:
-        stores = [n for n in f.body_nodes() if isinstance(n, (ast.Assign, ast.AugAssign)) and any(src_of(t) == 'pos' for t in (n.targets if isinstance(n, ast.Assign) else [n.target]))]
-        if len(stores) == 1:
-            res.ok('Scanner.error: ScannerException(message, pos, self.string) with pos defaulting to self.pos')
-        else:
-            res.bad(F('SCN-CORE', f, f.node, 'stores to pos in Scanner.error', 'the reported position must be the unmodified 0-based cursor position (only the message is 1-based)'))
-    else:
-        res.bad(F('SCN-CORE', f, f.node, ' ; '.join(body), 'Scanner.error must build ScannerException(message, pos, self.string) with pos defaulting to self.pos'))
-    init = p.func('scanner.ScannerException.__init__')
-    s = src_of(init.node)
-    if 'self.pos = pos' in s and 'self.string = source' in s and 'self.message = message' in s:
-        res.ok('ScannerException stores message, string, pos')
-    else:
-        res.bad(F('SCN-CORE', init, init.node, 'ScannerException.__init__', 'exception must carry message, source string and position'))
-    init = p.func('scanner.Scanner.__init__')
-    s = src_of(init.node)
-    if 'self.pos = self.start = start' in s and 'self.end = len(source) if end is None else end' in s and 'self.string = source' in s:
-        res.ok('Scanner.__init__: pos = start = start, end = len(source) unless given')
-    else:
-        res.bad(F('SCN-CORE', init, init.node, 'Scanner.__init__', 'scanner construction changed'))
-    TS = 'token_scanner.TokenScanner.'
-    expect(TS + 'peek', ['return self.tokens[self.pos] if self.readable() else None'], 'peek() must return None when not readable')
-    expect(TS + 'readable', ['return self.pos < self.size'], 'readable() is pos < size')
-    expect(TS + 'next', ['t = self.peek()', 'self.pos += 1', 'return t'], 'TokenScanner.next')
-    expect(TS + 'consume', ['token = self.peek()', 'if token and test(token):\n    self.pos += 1\n    return True', 'return False'],
-           'consume() steps only over an existing token that passes the test')
-    expect(TS + 'consume_while', ['start = self.pos', 'while self.consume(test):\n    pass', 'return self.pos != start'], 'consume_while')
-    expect(TS + 'slice', ['if start is None:\n    start = self.start', 'if end is None:\n    end = self.pos', 'return self.tokens[start:end]'], 'slice() defaults to start..pos')
-    f, body = body_src(TS + 'error')
-    s = '\n'.join(body)
-    if 'if token is None:\n    token = self.peek()' in s and 'if token and token.start is not None:\n    pos = token.start' in s and 'return TokenScannerException(message, pos)' in s:
-        res.ok('TokenScanner.error: position is the token start')
-    else:
-        res.bad(F('SCN-CORE', f, f.node, ' ; '.join(body), 'TokenScanner.error must report the start of the offending token'))
-    init = p.func('token_scanner.TokenScanner.__init__')
-    s = src_of(init.node)
-    if 'self.pos = 0' in s and 'self.size = len(tokens)' in s and 'self.tokens = tokens' in s:
-        res.ok('TokenScanner.__init__: pos = 0, size = len(tokens)')
-    else:
-        res.bad(F('SCN-CORE', init, init.node, 'TokenScanner.__init__', 'token scanner construction changed'))
-    B = 'extract_abbreviation.reader.BackwardScanner.'
-    expect(B + 'sol', ['return self.pos == self.start'], 'sol() is pos == start')
-    expect(B + 'peek', ['pos = self.pos - 1 + offset', "return self.text[pos] if 0 <= pos < len(self.text) else ''"], "peek() must return '' outside the text")
-    expect(B + 'previous', ['if not self.sol():\n    self.pos -= 1\n    return self.text[self.pos]'], 'previous() must not step before the left bound')
-    expect(B + 'consume', ['if self.sol():\n    return False', 'ok = match(self.peek()) if callable(match) else match == self.peek()', 'if ok:\n    self.pos -= 1', 'return bool(ok)'],
-           'consume() tests sol() first')
-    expect(B + 'consume_while', ['start = self.pos', 'while self.consume(match):\n    pass', 'return self.pos < start'], 'consume_while')
-    M = 'math_expression.extract.BackwardScanner.'
-    expect(M + 'prev', ["return self.text[self.pos - 1] if self.pos else ''"], "prev() returns '' at position 0")
-    expect(M + 'cur', ["return self.text[self.pos] if self.pos < len(self.text) else ''"], "cur() returns '' at the end")
-    TT = 'markup.format.template.TokenScanner.'
-    expect(TT + 'peek', ['if pos is None:\n    pos = self.pos', "return self.text[pos] if pos < len(self.text) else ''"], "template peek() returns '' at the end")
+            for a, want, c in det[:2]:
+                have = c.outcome()
+                # same steps, different operands  /  a cursor step added or dropped  ->  the method computes something else
+                wsk = [x.split(' = ')[0] if x.startswith('store ') else x.split(' ')[0] for x in want.split(' ; ')]
+                hsk = [x.split(' = ')[0] if x.startswith('store ') else x.split(' ')[0] for x in have.split(' ; ')]
+                pos_w = [x for x in wsk if x.startswith('store') and x.endswith('.pos')]
+                pos_h = [x for x in hsk if x.startswith('store') and x.endswith('.pos')]
+                if wsk == hsk or pos_w != pos_h:
+                    res.bad(F('SCN-CORE', f, f.node, '%s  [%s]' % (have, c.cond_str()), SCN_CORE_MSG.get(name, 'cursor method') + '; reviewed behaviour for this case: ' + want))
+                else:
+                    res.undecided('%s [%s]: %s' % (fq, c.cond_str(), have), 'reviewed: ' + want)
     # who may write .pos of a cursor: census
     writers = {}
     for f in p.funcs.values():
